@@ -14,9 +14,9 @@ Lemma holds_read_sound k :
       /\ holds_cross_restricted k = true).
 Proof.
   unfold holds_read. intros H Hd. rewrite Hd in H. cbn [negb orb] in H.
-  apply andb_true_iff in H. destruct H as [H H3]. apply andb_true_iff in H. destruct H as [H1 H2].
+  rewrite !andb_true_iff in H. destruct H as [[[H1 _] H2] H3].
   split; [exact H1|]. split; [exact H2|]. intros Hm. rewrite Hm in H3. cbn [orb] in H3.
-  apply andb_true_iff in H3. exact H3.
+  rewrite !andb_true_iff in H3. tauto.
 Qed.
 
 (* a region handed to the VCF reader of a file without an index: refused by both APIs, or answered
